@@ -26,7 +26,7 @@ func init() {
 	Register(&Prop{
 		ID:    "C14",
 		Title: "Attestations and reports act only on a quorum of the providers named on the form",
-		Cases: func(t string) int { return tierN(t, 27*7, 27*7*12) },
+		Cases: func(t string) int { return tierN(t, 27*7, 27*7*80) },
 		Run:   runC14,
 		Rule: "case = one (form size 1..6, minimum 0..size) pair x one of 7 signature-sequence templates (one short of the minimum with repeats and unnamed signers (must never act); distinct named in order; every named twice; unnamed providers + the prover + a non-provider first; one named repeated min+2 times then the rest; signatures before the form exists and after it was consumed; PRNG order with repeats) x a provider population of size+1..9 with shared and distinct domains, run once for an attestation form and once for a report form on the same (prover, file); in the report phase a second report form on another (prover, file) with min-1 signatures is outstanding in 60% of the cases with min >= 2, and in 35% the chain is exported and restarted from its genesis file at a PRNG point of the signature sequence; the (pair x template) grid is enumerated completely by the case index, populations and orders are drawn from the PRNG; " +
 			"oracle after every Attest / Report / Request* message from queries Attestation / Report / Proof / File: the reference model's set of distinct named signers decides exactly when LastProven is refreshed (attest) or the prover is unlisted (report) and when the form disappears; nothing else about the proof, the file or the prover list may change; form composition at creation (size, distinct, registered providers holding >=1 proof, never the prover); " +
